@@ -74,6 +74,7 @@ type worldSpec struct {
 	Crash         bool // a crash may be injected at any point (one per execution)
 	FaultInsert   bool // InsertLogs may fail (one deviation each)
 	StoreGoesDown bool // from one InsertLogs on (one deviation) every InsertLogs fails
+	ReadsGoDown   bool // from one read on (one deviation) every read fails; insertions still work
 	GracefulClose bool // Commander.Close() is called at any moment
 	FaultReads    bool // store reads may fail
 }
@@ -236,6 +237,7 @@ func runWorld(spec *worldSpec, r *explore.Replayer) *worldRun {
 	w.SeedLen = w.Store.Len()
 	w.Pub = &engineh.Publisher{Store: w.Store, Hook: func(topic string) { verifrt.Point("publish " + topic) }}
 	storeDown := false
+	readsDown := false
 	w.Store.Hook = func(op string) error {
 		isInsert := strings.HasPrefix(op, "InsertLogs")
 		if isInsert && spec.StoreGoesDown {
@@ -246,6 +248,18 @@ func runWorld(spec *worldSpec, r *explore.Replayer) *worldRun {
 			}
 			if verifrt.Choice(op, 2) == 1 {
 				storeDown = true
+				return errInjected
+			}
+			return nil
+		}
+		if !isInsert && spec.ReadsGoDown {
+			// reads fail from some read on and keep failing (an outage of the read path, unlike a single transient fault)
+			if readsDown {
+				verifrt.Point(op + " (reads down)")
+				return errInjected
+			}
+			if verifrt.Choice(op, 2) == 1 {
+				readsDown = true
 				return errInjected
 			}
 			return nil
